@@ -285,6 +285,12 @@ def corpus_table(tier, seed):
     A(4, (4,), k0=2)
     A(5, (1, 2), k0=3)
     A(6, (), k0=0)
+    # repr / explicit discriminants on the key enum must not matter
+    p = table_program(nm, 4, (1,), k0=4)
+    p.repr = 'u8'
+    for i, v in enumerate(p.variants):
+        v.disc = str(40 - 7 * i) if i % 2 == 0 else None
+    out.append(p)
     if tier == 'quick':
         return add_noise(out)
     k = 0
@@ -559,6 +565,12 @@ def corpus_disc(tier, seed):
     # the enum itself is not `pub`: IntoDiscriminant is still implemented unless vis(..) says otherwise
     A([V('Inner'), V('Data', 'tuple', ['u8'])]).vis = 'pub(crate)'
     A([V('Priv'), V('Two')]).vis = ''
+    # attributes that are copied to the generated variants (doc, allow, cfg) or passed through must not change the mapping
+    p = A([V('Doc'), V('Allowed', 'tuple', ['u8']), V('Cfg'), V('Last', 'named', ['bool'])], repr='u8')
+    p.variants[0].docs = [' documented variant']
+    p.variants[1].extra_attrs = ['allow(dead_code)']
+    p.variants[2].extra_attrs = ['cfg(all())']
+    p.variants[1].disc = '9'
     # expressions with operators Verus' const evaluation does not take: decided by the Kani twin
     p = A([V('Read'), V('Write'), V('Exec', 'tuple', ['u8']), V('All')], repr='u8')
     p.variants[0].disc, p.variants[2].disc = '1 << 2', '0x10 | 3'
